@@ -95,7 +95,7 @@ def gen_list(R, depth=0):
     if k < 0.90:
         return [{'cmd': 's', 'loc': '-1', 'pat': '^', 'rep': tag, 'g': False}]
     if k < 0.94 and depth == 0:
-        return [{'cmd': R.choice(['g', 'v']), 'loc': '', 'pat': R.choice(PATS), 'list': gen_list(R, 1)}]
+        return [{'cmd': R.choice(['g', 'v']), 'loc': R.choice(['', '', '.,+1', '-1,.', '.,$', '1,.', '-1,+1']), 'pat': R.choice(PATS), 'list': gen_list(R, 1)}]
     if k < 0.97:
         return [{'cmd': 'pu', 'loc': '', 'arg': 'a'}]
     return [{'cmd': 'k', 'loc': '', 'arg': 'a'}, {'cmd': 's', 'loc': '', 'pat': '$', 'rep': tag, 'g': False}]
@@ -148,11 +148,31 @@ def run_case(args):
                          [{'cmd': 'a', 'loc': '', 'text': ['T1', 'T2']}]])
         loc = R.choice(['', '%'])
     pre = b'1y a\n' if R.random() < 0.5 else b''
+    first = None
+    if not big and R.random() < 0.15:
+        # an earlier global that inserts lines and is then stopped by a failing last command: whatever it had marked
+        # and not yet visited must mean nothing to the next global
+        pre = b'1y a\n'
+        first = (R.choice(['', '%', '1,%d' % b]), R.choice(PATS), R.choice([
+            [{'cmd': 'pu', 'loc': '', 'arg': 'a'}, {'cmd': 'd', 'loc': '+99'}],
+            [{'cmd': 'y', 'loc': '', 'arg': ''}, {'cmd': 'pu', 'loc': '', 'arg': ''}, {'cmd': 'pu', 'loc': '', 'arg': 'a'}, {'cmd': 's', 'loc': '+99', 'pat': '$', 'rep': '!', 'g': False}],
+            [{'cmd': 'pu', 'loc': '-1', 'arg': 'a'}, {'cmd': 'd', 'loc': '-99'}]]))
+        pre += ('%sg/%s/%s\n' % (first[0], first[1], render_list(first[2]))).encode()
     gcmd = ('%s%s/%s/%s\n' % (loc, 'v' if neg else 'g', pat, render_list(cmds))).encode()
     # model first (to know how many text blocks the executions will read)
     M = mx.Ex(lines, icase=True)
     if pre:
         M._do('1', 'y', 'a', None)
+    if first:
+        try:
+            model_glob(M, first[0], first[1], False, first[2])
+        except mx.Reject:
+            pass
+        except (mx.Unknown, mr.Budget, RecursionError, ValueError):
+            return ('cut', None, None, 0)
+        M.cur = max(0, min(M.cur, M.n() - 1))
+        if (a > M.n() or b > M.n()) and loc not in ('', '%'):
+            return ('cut', None, None, 0)
     try:
         M.executions = 0
         model_glob(M, loc, pat, neg, cmds)
@@ -207,7 +227,7 @@ def run(tier, V):
         elif k == 'violation':
             V.violation(key, what, wit)
     cov = {'evaluations': n, 'distinct_nontrivial': stats.get('ok', 0), 'outcomes': stats, 'model_executions': nex,
-           'rule': ('%d scripts: :g / :v with patterns x ranges x command lists from {d, s, y|pu, pu, a/i/c with text, -1d, +1d, +1s, .,+1d, -1,.d, s|+1d, -1s, nested g/v, k|s} over buffers of 1-9 lines; '
+           'rule': ('%d scripts: :g / :v with patterns x ranges x command lists from {d, s, y|pu, pu, a/i/c with text, -1d, +1d, +1s, .,+1d, -1,.d, s|+1d, -1s, nested g/v with and without a range of their own, k|s} over buffers of 1-9 lines, 15%% after an earlier global that inserted lines and was stopped by a failing command; '
                     'the resulting text (which reveals the set, order and number of executions), the current line and the text after ONE undo are compared with the identity-based model / the text observed before the global.  '
                     'non-trivial = the global changed the buffer.' % n),
            'samples': [{'lines': ['a', 'x a', 'b'], 'command': 'g/a/s/$/!/|+1d'}]}
